@@ -103,7 +103,12 @@ def execute(tag, cases, variant="default", force=None, mode="run", model_be="rt1
     # the forced-backend line must lead every shard
     from common import shard
     shards = [pre + s for s in shard(lines, NPROC)]
-    outs = run_sharded(tag, shards, cmds, work)
+    try:
+        outs = run_sharded(tag, shards, cmds, work)
+    except BaseException:
+        # an interrupted run (timeout, out of memory, ^C) must not leave gigabytes of case files behind
+        shutil.rmtree(work, ignore_errors=True)
+        raise
     for name, (ol, status) in outs.items():
         d = by_id(ol)
         d.pop("force", None)
